@@ -652,6 +652,12 @@ fn points(thorough: bool) -> Vec<Point> {
             out.push(p);
         }
     }
+    // trace metadata of several lengths (bound into the seed through the context)
+    for init in 1..family::INITS.len() {
+        let mut p = base;
+        p.d[7] = init;
+        out.push(p);
+    }
     // other computation shapes
     for rule in 1..family::RULES.len() {
         let mut p = base;
